@@ -51,10 +51,13 @@ Section Bounds.
   (* AdditiveDistribution.collapse_bounds: elementwise max of lower, min of upper bounds *)
   Definition vmax (a b : V) : V := map2 (fun x y => if ltb x y then y else x) a b.
   Definition vmin (a b : V) : V := map2 (fun x y => if ltb y x then y else x) a b.
+  Definition merge_lo (acc b : option V) : option V :=
+    match b, acc with Some l, Some a => Some (vmax a l) | Some l, None => Some l | None, a => a end.
+  Definition merge_hi (acc b : option V) : option V :=
+    match b, acc with Some u, Some a => Some (vmin a u) | Some u, None => Some u | None, a => a end.
   Definition collapse (parts : list (option V * option V)) (own : option V * option V) : option V * option V :=
-    fold_left (fun acc b =>
-      (match snd (A:=option V) (B:=option V) (snd b, fst b), fst acc with
-       | Some l, Some a => Some (vmax a l) | Some l, None => Some l | None, a => a end,
-       match snd b, snd acc with
-       | Some u, Some a => Some (vmin a u) | Some u, None => Some u | None, a => a end)) parts own.
+    fold_left (fun acc b => (merge_lo (fst acc) (fst b), merge_hi (snd acc) (snd b))) parts own.
+
+  (* the misfit of a bounded distribution: misfit_bounds(q) + unbounded misfit *)
+  Definition inf_or_zero (lo hi : option V) (pinf : T N) (q : V) : T N := if outside lo hi q then pinf else ofZ 0.
 End Bounds.
